@@ -62,5 +62,47 @@ for sc in SCN.SCENARIOS[:nmax]:
             if s.n_like != len(calls):
                 bad.append(dict(where=tag + '/continued',
                                 what='n_like != calls after second run'))
+# the return value is the success predicate of the final state for every
+# requested shell occupation (also requests between the occupation of the
+# early shells and the number of proposals)
+for sc in SCN.SCENARIOS[:nmax]:
+    for n_shell in (int(0.6 * sc['n_live']), int(0.9 * sc['n_live']),
+                    int(1.5 * sc['n_live'])):
+        s = SCN.make_sampler(sc, seed=3)
+        ok = s.run(n_eff=100, n_shell=n_shell, verbose=False)
+        want = bool(s.explored and np.all(s.shell_n >= n_shell) and
+                    s.n_eff >= 100)
+        tag = '{}/n_shell={}'.format(sc['name'], n_shell)
+        if bool(ok) != want:
+            bad.append(dict(where=tag, what='run() returned {} but the final '
+                            'state has min(shell_n) = {}, n_eff = {:.1f}'
+                            .format(bool(ok), int(np.min(s.shell_n)),
+                                    float(s.n_eff))))
+        elif ok and not np.all(s.shell_n >= n_shell):
+            bad.append(dict(where=tag, what='success with a shell below '
+                            'n_shell'))
+# periodic in one parameter only, likelihood peak at the edge of another one:
+# no evaluated point may leave the unit cube in any coordinate
+for seed in (0, 1):
+    outside = []
+
+    def prior_e(x):
+        if not np.all((x >= 0) & (x < 1)):
+            outside.append(x.copy())
+        return x
+
+    def like_e(x):
+        d = np.array([min(abs(x[0] - 0.02), 1 - abs(x[0] - 0.02)),
+                      x[1] - 0.985, x[2] - 0.5])
+        return -0.5 * float(np.sum((d / 0.06)**2))
+    s = Sampler(prior_e, like_e, n_dim=3, n_live=150, n_batch=50,
+                n_networks=0, periodic=np.array([0]), seed=seed)
+    s.run(n_eff=200, n_like_max=6000, verbose=False)
+    if outside:
+        bad.append(dict(where='periodic=[0], peak at the edge of parameter 1, '
+                        'seed {}'.format(seed),
+                        what='{} evaluated points outside the unit cube'
+                        .format(len(outside)),
+                        point=[repr(float(v)) for v in outside[0]]))
 print(json.dumps(dict(violations=bad[:10])))
 sys.exit(1 if bad else 0)
